@@ -189,6 +189,10 @@ fn on_events_body<const M: usize>(nev: usize, kind: u8, idcase: usize) {
         let x: usize = kani::any();
         kani::assume(x >= M);
         x
+    } else if idcase == 253 {
+        // a concrete id that names no machine (keeps the event buffer's length concrete even if the
+        // code under test were to filter events by id)
+        M + 5
     } else {
         idcase
     };
@@ -261,6 +265,9 @@ macro_rules! on_events {
 on_events!(f_on_events_m1, 1, 1, 2, 255);
 on_events!(f_on_events_m2, 2, 1, 2, 255);
 on_events!(f_on_events_m1_bb, 1, 1, 6, 255);
+on_events!(f_on_events_m1_bb_id0, 1, 1, 6, 0);
+on_events!(f_on_events_m1_bb_idu, 1, 1, 6, 253);
+on_events!(f_on_events_m1_ps_idu, 1, 1, 4, 253);
 on_events!(f_on_events_m2_bb, 2, 1, 6, 255);
 on_events!(f_on_events_m1_ps0, 1, 1, 4, 0);
 on_events!(f_on_events_m1_psu, 1, 1, 4, 254);
